@@ -74,6 +74,11 @@ func c01Cfgs() []Cfg {
 							cfg := Cfg{Proto: p, JSON: js, Comp: comp, Kind: kind, HTTP: h, ReqMode: m}
 							if cfg.Valid() {
 								out = append(out, cfg)
+								if h == 2 && m == memhttp.ReqEager && (comp == CompDefault || comp == CompNone) {
+									// the same over a transport that hands bodies over 7 bytes at a time
+									cfg.Chunk = 7
+									out = append(out, cfg)
+								}
 							}
 						}
 					}
@@ -184,6 +189,7 @@ func newC01Env(cfg Cfg) *c01Env {
 		return nil
 	}, cfg.HandlerOptions()...)
 	env.tr = &memhttp.Transport{Handler: h, Proto: cfg.HTTP, ReqMode: cfg.ReqMode, SyncCloseReq: true, MutateURL: true}
+	ChunkBodies(env.tr, cfg.Chunk)
 	env.cl = NewClient(env.tr, cfg)
 	return env
 }
